@@ -9,6 +9,8 @@ import (
 	"net/http"
 	"net/http/httptest"
 	"net/url"
+	"os"
+	"sync/atomic"
 
 	"encoding/json"
 	"errors"
@@ -70,11 +72,14 @@ type Pipe struct {
 	Keys        *concr.Keys
 	builders    map[string]*concr.Builder // key: "<d>/<ver>"
 	clients     map[int]*clientState
-	ids         map[string]int // canonical request -> submission id
+	ids         map[string]int  // canonical request -> submission id
+	meta        map[int]subMeta // submission id -> kind and DID
 	suffix      map[int]string
 	long        map[int]string
 	nsub        int
-	Inflated    int // submitted updates built by InflatingRequest
+	late        bool // the server clock has passed ExpiringUntil
+	nFlushFails int  // FlushFails steps so far (chooses which CAS write fails)
+	Inflated    int  // submitted updates built by InflatingRequest
 	InflatedIDs []int
 	curver      uint64
 	unpubOn     bool
@@ -131,13 +136,23 @@ type memCAS struct {
 	n        int
 	failRead bool
 	failWrt  *bool
+	failAt   int  // fail the k-th write from now on (0: none)
+	failed   bool // a write failure was injected since the last arming
 }
 
 func (c *memCAS) Write(b []byte) (string, error) {
 	c.mu.Lock()
 	defer c.mu.Unlock()
 	if c.failWrt != nil && *c.failWrt {
+		c.failed = true
 		return "", errors.New("injected CAS write failure")
+	}
+	if c.failAt > 0 {
+		c.failAt--
+		if c.failAt == 0 {
+			c.failed = true
+			return "", errors.New("injected CAS write failure")
+		}
 	}
 	c.n++
 	a := fmt.Sprintf("cas%d", c.n)
@@ -159,13 +174,17 @@ func (c *memCAS) Read(a string) ([]byte, error) {
 }
 
 type unpubStore struct {
-	mu  sync.Mutex
-	ops []*operation.AnchoredOperation
+	mu      sync.Mutex
+	ops     []*operation.AnchoredOperation
+	putFail bool
 }
 
 func (u *unpubStore) Put(op *operation.AnchoredOperation) error {
 	u.mu.Lock()
 	defer u.mu.Unlock()
+	if u.putFail {
+		return errors.New("injected unpublished-operation store failure")
+	}
 	u.ops = append(u.ops, op)
 	return nil
 }
@@ -360,6 +379,30 @@ func VersionPatches(ver uint64, tag int) []patch.Patch {
 	return []patch.Patch{p}
 }
 
+// serverClock is the server-time validator of intake and of the operation handler: the clock stands at ClockEarly until
+// the Clock step moves it to ClockLate, beyond the anchorUntil (ExpiringUntil) of the expiring updates (kind E).
+type serverClock struct{ p *Pipe }
+
+const (
+	ClockEarly    = 100
+	ExpiringUntil = 500
+	ClockLate     = 1000
+)
+
+func (c serverClock) Validate(from, until int64) error {
+	now := int64(ClockEarly)
+	if c.p.late {
+		now = ClockLate
+	}
+	if from > now {
+		return operationparser.ErrOperationEarly
+	}
+	if until > 0 && now > until {
+		return operationparser.ErrOperationExpired
+	}
+	return nil
+}
+
 // Alias is a second namespace the document handler answers to (longer than NS by more than one character).
 const Alias = "did:alias.example.com"
 
@@ -372,7 +415,7 @@ func New(unpubOn bool, kt concr.KeyType) (*Pipe, error) {
 	if err != nil {
 		return nil, err
 	}
-	p := &Pipe{Keys: keys, builders: map[string]*concr.Builder{}, clients: map[int]*clientState{}, ids: map[string]int{}, suffix: map[int]string{}, long: map[int]string{}, unpubOn: unpubOn,
+	p := &Pipe{Keys: keys, builders: map[string]*concr.Builder{}, clients: map[int]*clientState{}, ids: map[string]int{}, meta: map[int]subMeta{}, suffix: map[int]string{}, long: map[int]string{}, unpubOn: unpubOn,
 		queue: &opqueue.MemQueue{}, store: wire.NewOpStore(), unpub: &unpubStore{}, cas: &memCAS{m: map[string][]byte{}},
 		txnCh: make(chan []txn.SidetreeTxn), doneCh: make(chan obsSnap), contCh: make(chan struct{}, 1), dupTxn: map[int]bool{}}
 	p.cas.failWrt = &p.casWriteKO
@@ -387,7 +430,7 @@ func New(unpubOn bool, kt concr.KeyType) (*Pipe, error) {
 		} else {
 			pr.Patches = []string{"add-public-keys", "remove-public-keys", "add-services", "remove-services", "add-also-known-as", "remove-also-known-as"}
 		}
-		parser := operationparser.New(pr)
+		parser := operationparser.New(pr, operationparser.WithAnchorTimeValidator(serverClock{p}))
 		dc := doccomposer.New()
 		v := &wire.Version{P: pr, Parser: parser, Composer: dc, Applier: operationapplier.New(pr, parser, dc), Name: "1.0",
 			Validator: didvalidator.New(), Transformer: didtransformer.New()}
@@ -449,6 +492,58 @@ func (p *Pipe) client(d int) *clientState {
 		p.clients[d] = c
 	}
 	return c
+}
+
+// flushFailCounter cycles the failing write position over all pipelines of a run (every position of every batch
+// composition gets its turn).
+var flushFailCounter int64
+
+type subMeta struct {
+	k string
+	d int
+}
+
+// roundWrites predicts how many files the next forced round of the writer puts into CAS: chunk, provisional proof (if
+// an update is included), provisional index - unless only deactivates are included -, core proof (if a recover or
+// deactivate is included), core index.  Included: the first live operation per DID in the same-version prefix of the queue.
+func (p *Pipe) roundWrites() int {
+	items, _ := p.queue.Peek(p.queue.Len())
+	if len(items) == 0 {
+		return 1
+	}
+	seen := map[int]bool{}
+	var nC, nU, nR, nD int
+	for i, it := range items {
+		if it.ProtocolVersion != items[0].ProtocolVersion || i >= 10 {
+			break
+		}
+		m := p.meta[p.ids[canonKey(it.OperationRequest)]]
+		if (m.k == "E" && p.late) || seen[m.d] {
+			continue
+		}
+		seen[m.d] = true
+		switch m.k {
+		case "C":
+			nC++
+		case "U", "E", "X":
+			nU++
+		case "R":
+			nR++
+		case "D":
+			nD++
+		}
+	}
+	n := 1 // core index
+	if nC+nU+nR > 0 {
+		n += 2 // chunk, provisional index
+		if nU > 0 {
+			n++
+		}
+	}
+	if nR+nD > 0 {
+		n++
+	}
+	return n
 }
 
 func (p *Pipe) queueIDs() []int {
@@ -561,7 +656,7 @@ func (p *Pipe) view(rr *document.ResolutionResult, err error) View {
 // for delivering consecutive Observe steps to the observer as ONE notification).
 func (p *Pipe) Exec(s Step, dids []int) error {
 	switch s.A {
-	case "Submit", "SubmitAddFails":
+	case "Submit", "SubmitAddFails", "SubmitPutFails":
 		c := p.client(s.D)
 		b, err := p.builder(s.D)
 		if err != nil {
@@ -572,7 +667,7 @@ func (p *Pipe) Exec(s Step, dids []int) error {
 		switch s.K {
 		case "C":
 			sh = concr.Shape{Ty: "C", Nuc: 4, Nrc: 1, Dl: "ok", Win: "none", P: s.D * 100, Sfx: "ok", Sig: "ok"}
-		case "U":
+		case "U", "E":
 			sh = concr.Shape{Ty: "U", Rk: c.uk, Sig: "ok", Nuc: c.uk + 1, Dl: "ok", P: tok, Sfx: "ok"}
 		case "B": // a create with a key that validation accepts but the transformer cannot convert: refused
 			sh = concr.Shape{Ty: "C", Nuc: 4, Nrc: 1, Dl: "ok", Win: "none", P: s.D*100 + 99, Sfx: "ok", Sig: "ok"}
@@ -600,6 +695,9 @@ func (p *Pipe) Exec(s Step, dids []int) error {
 			// deterministic signature schemes (Ed25519) would make repeated requests byte-identical: a unique,
 			// always-satisfied window (no anchorFrom, far-away anchorUntil) keeps every submission distinct
 			bb.WinOverride = &[2]int64{0, 1000000000000 + int64(p.nsub)}
+			if s.K == "E" { // the signed window ends at a server time that the Clock step passes
+				bb.WinOverride = &[2]int64{0, ExpiringUntil}
+			}
 		}
 		req, err := bb.Request(sh)
 		if err != nil {
@@ -619,16 +717,23 @@ func (p *Pipe) Exec(s Step, dids []int) error {
 		}
 		p.nsub++
 		p.ids[canonKey(req)] = p.nsub
+		p.meta[p.nsub] = subMeta{k: s.K, d: s.D}
 		p.addFails = s.A == "SubmitAddFails"
+		p.unpub.mu.Lock()
+		p.unpub.putFail = s.A == "SubmitPutFails"
+		p.unpub.mu.Unlock()
 		perr := p.submit(req)
 		p.addFails = false
+		p.unpub.mu.Lock()
+		p.unpub.putFail = false
+		p.unpub.mu.Unlock()
 		if perr == nil {
 			switch s.K {
 			case "C":
 				c.created = true
 				p.suffix[s.D] = b.Suffix
 				p.long[s.D] = longForm(NS+":"+b.Suffix, req)
-			case "U":
+			case "U", "E":
 				c.uk++
 				c.seq++
 			case "X":
@@ -642,23 +747,45 @@ func (p *Pipe) Exec(s Step, dids []int) error {
 				c.dead = true
 			}
 		}
-		e := map[string]interface{}{"ev": "Submit", "d": s.D, "k": s.K, "addFails": s.A == "SubmitAddFails", "accepted": perr == nil,
+		e := map[string]interface{}{"ev": "Submit", "d": s.D, "k": s.K, "addFails": s.A == "SubmitAddFails", "putFails": s.A == "SubmitPutFails", "accepted": perr == nil,
 			"q": p.queueIDs(), "unpub": p.unpubIDs()}
 		if perr != nil {
 			e["error"] = perr.Error()
 		}
 		p.log(e)
 	case "Flush", "FlushFails":
-		p.casWriteKO = s.A == "FlushFails"
+		// FlushFails: one CAS write of the round fails - the first, second, ... fifth in turn (a round writes up to five
+		// files; a position beyond the last write means that nothing fails, and the event says so)
+		p.cas.mu.Lock()
+		p.cas.failed = false
+		p.cas.failAt = 0
+		if s.A == "FlushFails" {
+			p.cas.failAt = 1 + int(atomic.AddInt64(&flushFailCounter, 1))%p.roundWrites()
+			if os.Getenv("VERIF_DEBUG_FLUSH") != "" {
+				fmt.Fprintf(os.Stderr, "FLUSHFAILS writes=%d pos=%d q=%v\n", p.roundWrites(), p.cas.failAt, p.queueIDs())
+			}
+			p.nFlushFails++
+		}
+		p.cas.mu.Unlock()
 		p.lastAnch = []int{}
 		before := len(p.ledger)
 		p.writer.VerifProcessAvailable(true)
-		p.casWriteKO = false
+		p.cas.mu.Lock()
+		failed := p.cas.failed
+		p.cas.failAt = 0
+		p.cas.mu.Unlock()
+		if s.A == "FlushFails" && !failed {
+			// the round wrote fewer files than predicted: the harness, not the code under test, is at fault
+			return fmt.Errorf("FlushFails: no CAS write at the predicted position (roundWrites mispredicted)")
+		}
 		anch := []int{}
 		if len(p.ledger) > before {
 			anch = p.lastAnch
 		}
-		p.log(map[string]interface{}{"ev": "Flush", "fails": s.A == "FlushFails", "anchored": anch, "q": p.queueIDs()})
+		p.log(map[string]interface{}{"ev": "Flush", "fails": failed, "anchored": anch, "q": p.queueIDs(), "unpub": p.unpubIDs()})
+	case "Clock":
+		p.late = true
+		p.log(map[string]interface{}{"ev": "Clock"})
 	case "Garbage":
 		i := len(p.ledger) + 1
 		p.ledger = append(p.ledger, txn.SidetreeTxn{TransactionTime: uint64(i), TransactionNumber: uint64(i), AnchorString: "1.garbage-" + strconv.Itoa(i),
